@@ -129,12 +129,28 @@ def main (args : List String) : IO Unit :=
   match args with
   | ["spec"] => runLines ({} : C04Hs.Spec) (fun st l => match l.splitOn "\t" with
       | [op, out] =>
-        if (tokens op).head? = some "hs" then C04Hs.spec st (tokens op) (tokens out)
+        if (tokens op).take 2 = ["hs", "uiack"] then
+          (match tokens out with
+           | ["uiack", "frames", _, "unauth", u, "dupnonce", d, "pubkey", p] =>
+             if p ≠ "0" then (st, "fail replayed-ack-rekeyed-with-public-key")
+             else if d ≠ "0" then (st, "fail nonce-reused-after-replayed-ack")
+             else if u ≠ "0" then (st, "fail frame-not-under-tunnel-key after a replayed ack")
+             else (st, "ok")
+           | _ => (st, "fail unparsable uiack"))
+        else if (tokens op).head? = some "hs" then C04Hs.spec st (tokens op) (tokens out)
         else if (tokens op).head? = some "reset" then ({}, "ok")
         else (st, spec op out)
       | _ => (st, "bad-op"))
   | _ => runLines ({} : C04Hs.St) (fun st l =>
       match tokens l with
+      | ["hs", "uiack", k] =>
+        -- ingress side, the same UDP_OPEN_ACK delivered twice: 2k datagrams, all under the tunnel key, no nonce
+        -- twice — unless the probed tree re-keys from its wiped private key (open finding)
+        (match k.toNat? with
+         | some k =>
+           if Gen.C04.replayedAckRekeysPublic then (st, s!"uiack frames {2*k} unauth {k} dupnonce {k} pubkey {k}")
+           else (st, s!"uiack frames {2*k} unauth 0 dupnonce 0 pubkey 0")
+         | none => (st, "bad-op"))
       | "hs" :: _ => C04Hs.step st (tokens l)
       | ["reset"] => ({}, "ok")
       | _ => (st, stepLine l))
